@@ -241,6 +241,22 @@ theorem notification_state_inventory :
     stateOf Skeletons.sk_driver_async_spastruct__GeckoAsyncStructure_replace_status_block_segment = (["self._status_block"], ["self.accessors.values"]) := by
   decide +kernel
 
+/-- **the notification walk keeps no memory** (state inventory over the regenerated skeletons of `Observable`, the base of every item,
+sensor, device and facade): `_on_change` assigns no attribute - there is no "busy" or "already told" mark that a failing observer
+could leave set - and calls every observer that is still registered; `watch` / `unwatch` touch nothing but the observer list.  So
+whatever happened during one notification (an observer raised, the walk was abandoned), the next change is delivered like the first -/
+theorem notification_walk_keeps_no_state :
+    Coop.selfStateWritten Skeletons.sk_driver_observable__Observable__on_change = [] ∧
+    Coop.actions .brT Skeletons.sk_driver_observable__Observable__on_change = ["observer in self._observers"] ∧
+    "observer" ∈ Coop.actions .call Skeletons.sk_driver_observable__Observable__on_change ∧
+    (Coop.selfStateWritten Skeletons.sk_driver_observable__Observable_watch, Coop.actions .call Skeletons.sk_driver_observable__Observable_watch) =
+      ([], ["self._observers.append"]) ∧
+    (Coop.selfStateWritten Skeletons.sk_driver_observable__Observable_unwatch, Coop.actions .call Skeletons.sk_driver_observable__Observable_unwatch) =
+      ([], ["self._observers.remove"]) := by decide +kernel
+
+/-- non-vacuity: a re-entrancy mark would be seen -/
+example : Coop.selfStateWritten (.seq (.ev (.act ⟨.set, "self._notifying"⟩)) (.ev (.act ⟨.call, "observer"⟩))) = ["self._notifying"] := by decide +kernel
+
 /-! ### observers that change the registration list while they are being notified -/
 namespace Reentrant
 open GeckoModel.ObserverDispatch
